@@ -55,6 +55,7 @@ type ScriptConn struct {
 	CloseErr      error
 	OnWrite       func([]byte)  // called (outside the lock) with every accepted chunk
 	MaxBlock      time.Duration // watchdog for a block with no deadline (default 20s); then EOF + HungNoDeadline
+	OnRemoteAddr  func()        // called (outside the lock) whenever RemoteAddr is asked for: a rendezvous point for drivers
 
 	mu        sync.Mutex
 	cond      *sync.Cond
@@ -369,8 +370,13 @@ func (c *ScriptConn) SetReadDeadline(t time.Time) error {
 func (c *ScriptConn) SetWriteDeadline(t time.Time) error {
 	return c.setDL("setwritedeadline", t, false, true)
 }
-func (c *ScriptConn) LocalAddr() net.Addr  { return c.Local }
-func (c *ScriptConn) RemoteAddr() net.Addr { return c.Remote }
+func (c *ScriptConn) LocalAddr() net.Addr { return c.Local }
+func (c *ScriptConn) RemoteAddr() net.Addr {
+	if f := c.OnRemoteAddr; f != nil {
+		f()
+	}
+	return c.Remote
+}
 
 // ---- observation -----------------------------------------------------------------------------
 
